@@ -46,6 +46,7 @@ import GM.Props.ConvertE2ENP
 import GM.Props.ConvertL
 import GM.Props.ConvertE2EAll
 import GM.Props.ConvertXE2E
+import GM.Props.C15Total
 
 namespace GM.Props.C01
 open GM
@@ -687,5 +688,17 @@ theorem block_phase_x_root_is_document : type_of% @GM.Props.ConvertXE2E.block_ph
 
 /-- (re-export of `GM.Props.ConvertXE2E.block_phase_x_info_closure_in_range`) see `GM.Props.ConvertXE2E.block_phase_x_info_closure_in_range` -/
 theorem block_phase_x_info_closure_in_range : type_of% @GM.Props.ConvertXE2E.block_phase_x_info_closure_in_range := @GM.Props.ConvertXE2E.block_phase_x_info_closure_in_range
+
+/-- (re-export of `GM.Props.C15Total.converth_total`) **`converth_total`** — C01 for the AutoHeadingID configuration: for EVERY byte string, Unicode-class assignment and
+    renderer option set, `convertH true` (the model of `goldmark.New(WithParserOptions(WithAutoHeadingID()), …).Convert`, tied
+    byte for byte by component `converth`) answers HTML: no Go run-time panic, no fuel exhaustion, no monitor, no guard. -/
+theorem converth_total : type_of% @GM.Props.C15Total.converth_total := @GM.Props.C15Total.converth_total
+
+/-- (re-export of `GM.Props.C15Total.block_phase_h_total`) **the block phase with AutoHeadingID is total**: the strict form of `converth_block_phase_projects` — it returns exactly
+    when (always) `convertCore`'s block phase returns, in the same store -/
+theorem converth_block_phase_total : type_of% @GM.Props.C15Total.block_phase_h_total := @GM.Props.C15Total.block_phase_h_total
+
+/-- (re-export of `GM.Props.C15Total.block_phase_h_error_is_core_error`) e2e's missing fact: a panic of the block phase with the option is a panic of `convertCore`'s block phase (vacuously: there is none) -/
+theorem converth_block_phase_error_is_core_error : type_of% @GM.Props.C15Total.block_phase_h_error_is_core_error := @GM.Props.C15Total.block_phase_h_error_is_core_error
 
 end GM.Props.C01
